@@ -172,6 +172,15 @@ def in_case(draw):
         k, _ = draw(gen.key_exprs(scols))
         inner['order_by'] = [(k, draw(st.sampled_from(['ASC', 'DESC'])))]
         inner['limit'] = draw(st.sampled_from([None, 0, 1, 2, 3]))
+    third = None
+    if draw(st.integers(0, 2)) == 0:
+        # the inner query has an IN-subquery of its own, over a third table
+        third = draw(gen.tables(name='w', max_cols=2, max_rows=4, types=gen.KEYTYPES))
+        third['cols'] = [(('z' + n[1:]) if n != 'rid' else 'wid', ty) for n, ty in third['cols']]
+        t3 = draw(st.sampled_from(['int', 'str', 'date']))
+        cond = [draw(st.sampled_from(['in', 'notin'])), draw(gen.exprs(t3, scols, 1)),
+                ['subq', bql.select([(draw(gen.exprs(t3, third['cols'], 1)), 'z')], ('table', 'w'))]]
+        inner['where'] = cond if inner['where'] is None else ['and', [cond, inner['where']]]
     op = draw(st.sampled_from(['in', 'notin']))
     member = [op, x, ['subq', inner]]
     where_it = draw(st.sampled_from(['target', 'where', 'both']))
@@ -184,8 +193,8 @@ def in_case(draw):
     if where is not None and draw(st.booleans()):
         where = ['and', [where, draw(gen.exprs('bool', cols, 1))]]
     sel = harness.force_aliases(bql.select(tl, ('table', table['name']), where))
-    return {'tables': [table, other], 'sel': sel, 'text': bql.statement(sel), 'via_ast': draw(st.integers(0, 3)) > 0,
-            'member': member, 'same_table': same}
+    return {'tables': [table, other] + ([third] if third else []), 'sel': sel, 'text': bql.statement(sel),
+            'via_ast': draw(st.integers(0, 3)) > 0, 'member': member, 'same_table': same}
 
 
 def prop_in(sh, case):
